@@ -4,3 +4,4 @@ import FhVerif.Props.C30
 import FhVerif.Props.C26
 import FhVerif.Props.C24
 import FhVerif.Props.C28
+import FhVerif.Props.C29
